@@ -22,7 +22,7 @@ func init() {
 		RealParts:  []string{"experiment.Floats, Experiment / Trial / Generation aggregate accessors, Generation.FillPopulationStatistics", "Experiment.Execute producing the records (sequential executor, fake clock)"},
 		StubParts:  []string{"GenerationEvaluator (scripted)", "wall clock"},
 		Assumes:    []string{"reference meanings are the accessor documentation: solved count = trials with a solved generation; per-trial best = the generation champion of maximal fitness (ties: any of them); winner statistics = first solved generation, averaged over solved trials, -1 when none; trials left unrecorded by an aborted run are zero-valued records", "relative tolerance 1e-9"},
-		ProbeNames: []string{"probe.series.unsorted", "probe.series.empty", "probe.series.single", "probe.series.ties", "probe.experiment.cut_short", "probe.experiment.mixed_solved_unsolved", "probe.experiment.none_solved", "probe.best_champion_tie", "probe.record_surgery", "probe.experiment.all_zero_fitness", "probe.read_into_used_object", "probe.series.large_offset", "probe.series.updated_in_place", "probe.experiment.modular_champions", "probe.best_among_solvers"},
+		ProbeNames: []string{"probe.series.unsorted", "probe.series.empty", "probe.series.single", "probe.series.ties", "probe.experiment.cut_short", "probe.experiment.mixed_solved_unsolved", "probe.experiment.none_solved", "probe.best_champion_tie", "probe.record_surgery", "probe.experiment.all_zero_fitness", "probe.read_into_used_object", "probe.series.large_offset", "probe.series.near_max", "probe.series.updated_in_place", "probe.experiment.modular_champions", "probe.best_among_solvers"},
 	})
 }
 
@@ -283,6 +283,17 @@ func scenarioC19(c *RunCtx) {
 		}
 		checkSeries(c, y, "a synthetic series of large magnitude and small spread")
 		c.Count("probe.series.large_offset")
+		// finite values next to the largest float64: their sum is not representable, their mean is (it lies between
+		// the smallest and the largest element). Judged: minimum, maximum, the quantiles (order statistics) and the mean
+		// against a 256-bit reference; sum, variance and standard deviation overflow by definition and are left alone.
+		if t.Chance("synthetic.nearMax", 1, 8) {
+			v := make(experiment.Floats, t.Range("synthetic.nearMax.n", 2, 6))
+			for i := range v {
+				v[i] = math.MaxFloat64 * (0.5 + 0.5*rng.Float())
+			}
+			checkNearMaxSeries(c, v)
+			c.Count("probe.series.near_max")
+		}
 		// a series its owner keeps updating in place between queries (the same backing array, the same length: a running
 		// window of results): every query must describe the contents of the moment
 		z := append(experiment.Floats(nil), x...)
@@ -878,5 +889,42 @@ func checkTimeAggregates(c *RunCtx, exp *experiment.Experiment, ctx func() strin
 	}
 	if !newest.IsZero() {
 		c.Count("probe.time.instants_recorded")
+	}
+}
+
+// checkNearMaxSeries judges the accessors whose textbook value is representable for a series of finite values next to the
+// largest float64.
+func checkNearMaxSeries(c *RunCtx, x experiment.Floats) {
+	const what = "a synthetic series of values next to the largest float64"
+	const prec = 256
+	bsum := new(big.Float).SetPrec(prec)
+	lo, hi := x[0], x[0]
+	for _, v := range x {
+		bsum.Add(bsum, new(big.Float).SetPrec(prec).SetFloat64(v))
+		lo, hi = math.Min(lo, v), math.Max(hi, v)
+	}
+	wantMean, _ := new(big.Float).SetPrec(prec).Quo(bsum, new(big.Float).SetPrec(prec).SetInt64(int64(len(x)))).Float64()
+	var gotMin, gotMax, gotMean, gotMed float64
+	var mv []float64
+	c.Lib("Floats accessors", func() {
+		gotMin, gotMax, gotMean, gotMed = x.Min(), x.Max(), x.Mean(), x.Median()
+		mv = x.MeanVariance()
+	})
+	if gotMin != lo {
+		c.Fail("series:Min", "Min of %s = %v, the definition gives %v; series %v", what, gotMin, lo, []float64(x))
+	}
+	if gotMax != hi {
+		c.Fail("series:Max", "Max of %s = %v, the definition gives %v; series %v", what, gotMax, hi, []float64(x))
+	}
+	s := append([]float64(nil), x...)
+	sort.Float64s(s)
+	if k := int(math.Ceil(float64(len(x))*0.5 - 1e-12)); gotMed != s[k-1] {
+		c.Fail("series:Median", "Median of %s = %v, the empirical quantile gives %v; series %v", what, gotMed, s[k-1], []float64(x))
+	}
+	if !eqStat(gotMean, wantMean) {
+		c.FailSoft("series:Mean", "Mean of %s = %v, the definition gives %v (the mean of finite values is finite); series %v", what, gotMean, wantMean, []float64(x))
+	}
+	if len(mv) == 2 && !eqStat(mv[0], wantMean) {
+		c.FailSoft("series:Mean", "MeanVariance[0] of %s = %v, the definition gives %v; series %v", what, mv[0], wantMean, []float64(x))
 	}
 }
